@@ -741,7 +741,7 @@ func (fv *FuncVC) evalComposite(x *ast.CompositeLit, st *State, addr bool) Val {
 		es := fv.th.sortOf(et)
 		h := fv.declSliceHeap(es)
 		r := fv.freshRef(st, "lit")
-		arr := fmt.Sprintf("((as const %s) %s)", arraySort(SInt, es), fv.th.zero(et))
+		arr := fv.th.constArr(SInt, es, fv.th.zero(et))
 		n := 0
 		for _, el := range x.Elts {
 			if kv, ok := el.(*ast.KeyValueExpr); ok {
@@ -785,7 +785,7 @@ func (fv *FuncVC) makeMap(mt *types.Map, st *State) Val {
 	ks, vs := fv.th.sortOf(mt.Key()), fv.th.sortOf(mt.Elem())
 	d, _, c := fv.declMapHeaps(ks, vs)
 	r := fv.freshRef(st, "map")
-	fv.setHeap(st, d, sx("store", fv.getHeap(st, d), r, fmt.Sprintf("((as const %s) false)", arraySort(ks, SBoolS))))
+	fv.setHeap(st, d, sx("store", fv.getHeap(st, d), r, fv.th.constArr(ks, SBoolS, "false")))
 	fv.setHeap(st, c, sx("store", fv.getHeap(st, c), r, "0"))
 	return Val{r, SRef, mt}
 }
@@ -795,7 +795,7 @@ func (fv *FuncVC) makeSlice(t types.Type, n string, st *State) Val {
 	es := fv.th.sortOf(et)
 	h := fv.declSliceHeap(es)
 	r := fv.freshRef(st, "make")
-	arr := fmt.Sprintf("((as const %s) %s)", arraySort(SInt, es), fv.th.zero(et))
+	arr := fv.th.constArr(SInt, es, fv.th.zero(et))
 	fv.setHeap(st, h, sx("store", fv.getHeap(st, h), r, arr))
 	return Val{sx("mk_slice", r, n), SSlice, t}
 }
